@@ -7,7 +7,8 @@ CONSTANTS
   AngVecs <- AngQuick
   MultVecs <- MultQuick
   ShiftVecs <- ShiftQuick
-  Kinds = {"node", "point", "multiple", "divider", "dilate", "subgrid", "migrate"}
+  Kinds = {"node", "point", "multiple", "divider", "dilate", "subgrid", "migrate", "history"}
+  HistoryGrid <- HistGrid
 INVARIANT Inv_C16
 CONSTRAINT Emit
 CHECK_DEADLOCK FALSE
